@@ -21,7 +21,7 @@ def run(ctx):
     thorough = ctx.thorough()
     proved = ctx.prove()
     ctx.trusted += F.TRUSTED
-    p = F.Pipeline(ctx, "C15", n_gen=9000 if thorough else 260, n_random=6 if thorough else 3)
+    p = F.Pipeline(ctx, "C15", n_gen=9000 if thorough else 420, n_random=6 if thorough else 3)
     seen = p.report(ASPECTS)
     if not proved and not ctx.violations:
         ctx.violation("proof obligation of C15 no longer checks: " + (ctx.broken or "Props/C15.v"),
@@ -38,4 +38,4 @@ def run(ctx):
         rule="theorems of coq/Props/C15.v (unbounded) + comment-sequence oracle and correspondence on every .vcl file of "
              "the repository (as is, and decorated) x default + every single-option flip, focus programs, grammar-generated "
              "programs decorated at random subsets of the documented placeholders x sampled configurations; "
-             "distinct = distinct (source, configuration)")
+             "1-3 comments per placeholder in mixed styles and positions (previous line / own line / same line, empty lines around), exhaustively every placeholder x 10 patterns; distinct = distinct (source, configuration); per-dimension counts in coverage.dimensions")
